@@ -18,7 +18,7 @@ RULE = (
     "graph_minimizer.py, ssb_decompiler.py, ssb_compiler.py, label_jump_to_resolver.py, ssb_special_ops.py, "
     "explorerscript_reader.py, macro.py, compiler/utils.py and the antlr4 ATN simulator / DFA / prediction-context "
     "modules (every opcode event inside graph_utils.py) a yield point; all threads but one are parked; a drawn list of "
-    "(thread choice, run length) pairs decides who runs next - the schedule is data, replays exactly and shrinks. A "
+    "(thread choice, run length, mode) entries decides who runs next - the schedule is data, replays exactly and shrinks; mode 1 counts only yield points inside code that touches state shared between calls (memo table, ANTLR caches), mode 2 additionally keeps the thread parked there until another job has finished (a long preemption in the middle of a shared-state access). A "
     "second mode lets the same jobs run freely with sys.setswitchinterval(1e-6); a third ('cold') runs the scheduled jobs in a fresh interpreter BEFORE anything was parsed there, so that the shared ANTLR DFA caches are built under thread switches, and computes the sequential results afterwards. Oracle: every job's result (ops, "
     "offsets, tables, text, serialized source maps) equals its result when run alone beforehand; no job raises. "
     "Non-trivial = the schedule switched threads >= 20 times while >= 2 jobs were inside traced code; distinct by hash."
@@ -70,7 +70,7 @@ def strategy(tier):
         "mode": st.just("sched"),
         "jobs": st.lists(job_items(), min_size=2, max_size=4),
         "dup": st.booleans(),
-        "schedule": st.lists(st.tuples(st.integers(0, 3), st.one_of(st.integers(1, 8), st.integers(1, 200), st.integers(1, 3000))).map(list), min_size=5, max_size=120),
+        "schedule": st.lists(st.tuples(st.integers(0, 3), st.one_of(st.integers(1, 8), st.integers(1, 200), st.integers(1, 3000)), st.sampled_from([0, 0, 0, 0, 1, 2])).map(list), min_size=5, max_size=120),
     })
     free_case = st.fixed_dictionaries({"mode": st.just("free"), "jobs": st.lists(job_items(), min_size=2, max_size=4), "dup": st.booleans(), "schedule": st.just([])})
     cold_case = sched_case.map(lambda c: dict(c, mode="cold"))
